@@ -1,4 +1,5 @@
 import PysnarkModel.Lemmas.Snarkjs
+import PysnarkModel.Gen.Api
 import PysnarkModel.Gen.Constants
 /-!
 # C10 — snarkjs files encode exactly the traced circuit and a valid witness
@@ -65,5 +66,12 @@ theorem C10_prime_is_backend_modulus : (Gen.snarkjsModulus : Int) < 2 ^ 256 ∧ 
 a zero coefficient and empty linear combinations meets `WF`, and both files decode -/
 example : exTrace.WF ∧ (decodeWtns (encodeWtns exTrace)).isSome ∧ (decodeR1cs (encodeR1cs exTrace)).isSome := by
   decide +kernel
+
+
+/-- **API surface pinned** (regenerated from the source on every run, `Gen/Api.lean`): the functions this property's model
+transcribes are exactly the functions the code has; an added or removed function changes the generated list and this
+obligation fails (the tie is then broken by construction and the check runs its extended search). -/
+theorem C10_api_surface :
+    Gen.api_snarkjsbackend = ["LinearCombination.__init__", "LinearCombination.__add__", "LinearCombination.__sub__", "LinearCombination.__mul__", "LinearCombination.__neg__", "privval", "pubval", "zero", "one", "fieldinverse", "get_modulus", "add_constraint", "prove"] := rfl
 
 end Pysnark
